@@ -154,8 +154,8 @@ class JsonDocument(HierDictDocument):
     def validate(self, key, cls, val):
         super(JsonDocument, self).validate(key, cls, val)
 
-        if issubclass(cls, (DateTime, Date, Time)) and not (
-                                    isinstance(val, six.string_types) and
+        if val is not None and issubclass(cls, (DateTime, Date, Time)) \
+                        and not (isinstance(val, six.string_types) and
                                                  cls.validate_string(cls, val)):
             raise ValidationError(key, val)
 
